@@ -94,6 +94,15 @@ CHECKS = {
         note="sampling made reproducible by seeding before each call; calls that raise are allowed but must leave everything unchanged",
         ref="DESIGN.md 4/C13",
     ),
+    "C14": dict(
+        technique="stateless exhaustive exploration of all operation histories up to a depth on the real layers in lock-step with a numpy reference automaton; explicit-state BFS with exact state hashing to the fixpoint for ActNorm",
+        text="All histories of length <=5 (thorough <=7) over {train, eval, forward(b1), forward(b2), inverse(b1), save+load into a fresh instance} are replayed on fresh ActNorm (2-D and image) "
+        "and BatchNorm layers; after every step outputs, log-dets, the complete state dict and the exception type are compared with a reference automaton of the documented life-cycle "
+        "(initialise exactly once on the first training forward so that that batch is normalised; batch statistics and the momentum rule only in training forwards; running statistics in eval; "
+        "inverse only in eval). The ActNorm state graph is additionally explored breadth-first to its fixpoint (6 states).",
+        note="either variance convention (n, n-1) accepted; float64, tolerance 1e-10",
+        ref="DESIGN.md 4/C14",
+    ),
     "C17": dict(
         technique="bounded-exhaustive product exploration: boundary alphabet placed at every (batch, feature) position x subject x direction x box/tail bound x dtype x pattern; oracle = exception type / finiteness",
         text="For every domain-restricted transform and direction (Exp/Tanh/Sigmoid/Cauchy inverses, Logit, the four box splines as bare functions with three boxes, as CDF "
